@@ -116,15 +116,43 @@ def matchEpisodes (impl required optional : List String) : Bool :=
   | none => false
   | some rest => (rest.foldl (fun acc r => acc.bind (eraseOnce r)) (some optional)).isSome
 
+/-- the order of releases is irrelevant to the property (and `doUnlockAll` falls back to map order
+    when an acquisition failed): sort every maximal run of releases before comparing -/
+def normRel (t : Trace) : List String :=
+  let rec go (acc : List String) (run : List String) : Trace → List String
+    | [] => acc ++ sortStrings run
+    | .rel k :: rest => go acc (("-" ++ renderKey k) :: run) rest
+    | .acq k :: rest => go (acc ++ sortStrings run ++ ["+" ++ renderKey k]) [] rest
+  go [] [] t
+
+def normStr (t : Trace) : String := " ".intercalate (normRel t)
+
+def handleNesting (j : Json) : Json :=
+  let id := jget j "id"
+  let sites := strs (jget (jget j "impl") "sites")
+  let expected := nestingTable.map Site.render
+  let bad := sites.filter fun s =>
+    match (s.splitOn ":").getLast? with
+    | some pair => match pair.splitOn ">" with
+      | [o, i] => !allowedNesting o i
+      | _ => true
+    | none => true
+  verdict id (sites == expected) (jstrs expected) (bad.map ("C20:nesting:" ++ ·)) "nesting" false
+
 def handleOrder (j : Json) : Json :=
+  if jstr (jget j "op") == "nesting" then handleNesting j else
   let id := jget j "id"
   let w := worldOfJson j
   let implEps : List Trace := ((jarr (jget (jget j "impl") "episodes")).map fun e => (jarr e).map evOfJson).filter (· ≠ [])
   let viol := (implEps.flatMap traceViolations).eraseDups
+  let failAt : Option Nat := if jhas j "fail" then (let f := jint (jget j "fail"); if f ≥ 0 then some f.toNat else none) else none
   match opOfJson j with
   | none => verdict id false Json.null viol "unknown-kind"
   | some op =>
-    let eps := (episodes w op).filter (· ≠ [])
+    let eps0 := (episodes w op).filter (· ≠ [])
+    let eps := match failAt with
+      | some k => (eps0.map (failTrunc k)).filter (· ≠ [])
+      | none => eps0
     -- remap goroutines (node-operation-only episodes next to others) may or may not have been reached
     let optional := match op with
       | .remove _ => eps.filter isNodeOpOnly
@@ -134,11 +162,13 @@ def handleOrder (j : Json) : Json :=
       | .remove _ => eps.filter (!isNodeOpOnly ·)
       | .realloc _ => eps.filter (!isNodeOpOnly ·)
       | _ => eps
-    let agree := matchEpisodes (implEps.map traceToStr) (required.map traceToStr) (optional.map traceToStr)
-    let nlocks := (implEps.map fun t => (t.filter fun e => match e with | .acq _ => true | _ => false).length).foldl (· + ·) 0
-    let multi := implEps.any fun t => (t.filter fun e => match e with | .acq _ => true | _ => false).length ≥ 2
+    let agree := matchEpisodes (implEps.map normStr) (required.map normStr) (optional.map normStr)
+    let nacq (t : Trace) : Nat := (t.filter fun e => match e with | .acq _ => true | _ => false).length
+    let nlocks := (implEps.map nacq).foldl (· + ·) 0
+    let multi := implEps.any fun t => nacq t ≥ 2
     verdict id agree (jstrs (eps.map traceToStr)) viol
-      ("locks-" ++ jstr (jget j "kind") ++ (if multi then "-multi" else if nlocks == 0 then "-none" else "-single")) (nlocks == 0)
+      ("locks-" ++ jstr (jget j "kind") ++ (if failAt.isSome then "-fail" else "") ++
+        (if multi then "-multi" else if nlocks == 0 then "-none" else "-single")) (nlocks == 0)
 
 end Oracle.Lock
 
